@@ -78,6 +78,12 @@ CHECKS = {
         design="3/C13",
         technique="Lean 4 proof (induction over the exporter loop, list lemmas for the text reader) + exact call-list/text correspondence + numeric unitary comparison",
     ),
+    "C15": dict(
+        text="Lean 4: model of Grover.__init__'s gate list (any n, oracle gate list, iteration count), of the default iteration count ceil(pi/4*sqrt(N/M)) with rational bounds on pi, and a reduced exact amplitude recurrence (eight integers per step). Theorems: on the whole (n, M) table 2<=n<=6, 1<=M<=2^n/4 (31 entries, decide +kernel, exact integers) success probability > 1/2, every solution more likely than every non-solution, total probability 1; for all n, M, k: normalisation of the recurrence, least-k characterisation of the default count, gate count and wire bounds of the circuit, decode_output inverts the argument encoding (from C09). Harness: every table entry (n<=4 quick, n<=6 thorough) x several solution sets x up to 11 syntactic forms (equality chains, minterms, loops, intervals, tuple/list argument types, oraclize of a lookup function / xor with a target) on fresh qlassfs: exact (integer) state-vector distribution of the real Grover circuit judged directly (solutions > non-solutions, success > 1/2, identical across forms, decode_output + the predicate's own Python function) and compared exactly with the model (gate list, qubit count, iteration count, rational prediction, decoding).",
+        note="PARTIAL: the step from the gate list to the reduced recurrence (class_uniform_invariant: H-layer/oracle/MCZ/diffuser keep the state class-uniform for every clean xor-oracle) is NOT proved; C15_statement is stated in Lean over an exact amplitude semantics but only C15_partial is proved; that step is tied by the table-exhaustive correspondence only (exact distribution of each explored real circuit == prediction). Whether a compiled predicate is a clean xor-oracle is C02/C03/C06's matter; one such inherited defect (transform_or2xor arity) made Grover amplify non-solutions; it was found by this check, has a Lean witness on the quirk-model, and is recorded as fixed (a8075e8) with its witness replayed on every run. Trusted: Lean kernel, textbook action of H/X/Z/MCX/MCZ (harness evaluator cross-checked each run against the qiskit-validated simulator), 3.141592 < pi < 3.141593.",
+        design="3/C15",
+        technique="Lean 4 proof (finite-table decide +kernel, ring identities, induction) + exact-arithmetic model/code correspondence",
+    ),
 }
 
 NOT_YET = {
